@@ -28,6 +28,9 @@ func (t *loopTr) expr(e ast.Expr) (string, lkind) {
 	case *ast.Ident:
 		return t.ident(x)
 	case *ast.UnaryExpr:
+		if x.Op == token.AND {
+			return t.errLit(x)
+		}
 		s, k := t.expr(x.X)
 		switch {
 		case x.Op == token.ADD && k.isNum():
@@ -44,6 +47,12 @@ func (t *loopTr) expr(e ast.Expr) (string, lkind) {
 		a, ak := t.expr(x.X)
 		if x.Op == token.SHL || x.Op == token.SHR {
 			return t.shift(e, x.Op, a, ak, x.Y), ak
+		}
+		if x.Op == token.QUO || x.Op == token.REM {
+			// a zero divisor panics: only non-zero constants are accepted
+			if c, isConst := t.constInt(x.Y); !isConst || c.Sign() == 0 {
+				t.fail(e, "%s by a non-constant or zero divisor is not supported (a zero divisor panics; only x %s c with a non-zero constant c)", x.Op, x.Op)
+			}
 		}
 		n := len(t.checks)
 		b, bk := t.expr(x.Y)
@@ -98,7 +107,7 @@ func (t *loopTr) ident(x *ast.Ident) (string, lkind) {
 func (t *loopTr) listIdent(x *ast.Ident) (string, lkind) {
 	o := t.info.Uses[x]
 	if _, isNil := o.(*types.Nil); isNil {
-		return "(none : Option String)", kErr
+		return "(none : " + t.errKind().lean() + ")", t.errKind()
 	}
 	v, ok := o.(*types.Var)
 	if !ok {
@@ -114,6 +123,9 @@ func (t *loopTr) listIdent(x *ast.Ident) (string, lkind) {
 	if v.Parent() == t.set.tp.tpkg.Scope() {
 		if k == kErr {
 			return t.set.errVar(t, v, x), k
+		}
+		if k == kErrAt {
+			t.fail(x, "the error variable %s as a value in a function that also builds &T{ErrX, off} errors is not supported", x.Name)
 		}
 		return t.set.pkgVar(t, v, x), k
 	}
@@ -186,6 +198,16 @@ func (t *loopTr) binop(at ast.Node, op token.Token, a string, ak lkind, b string
 			lt, le = "BitVec.slt", "BitVec.sle"
 		}
 		switch op {
+		case token.QUO: // the caller has checked that b is a non-zero constant
+			if ak.isSigned() {
+				return "(BitVec.sdiv " + a + " " + b + ")", ak
+			}
+			return "(" + a + " / " + b + ")", ak
+		case token.REM:
+			if ak.isSigned() {
+				return "(BitVec.srem " + a + " " + b + ")", ak
+			}
+			return "(" + a + " % " + b + ")", ak
 		case token.AND_NOT:
 			return "(" + a + " &&& ~~~" + b + ")", ak
 		case token.EQL:
@@ -202,7 +224,7 @@ func (t *loopTr) binop(at ast.Node, op token.Token, a string, ak lkind, b string
 			return "(" + le + " " + b + " " + a + ")", kBool
 		}
 	}
-	if ak == kErr {
+	if ak == kErr || ak == kErrAt {
 		t.fail(at, "comparison of errors is not supported")
 	}
 	t.fail(at, "unsupported operator %s on %s", op, ak.lean())
@@ -443,6 +465,9 @@ func (t *loopTr) libCall(x *ast.CallExpr, sel *ast.SelectorExpr) (string, lkind)
 		}
 		return "(Go.trailingZeros64 " + s + ")", kInt
 	case "fmt.Errorf":
+		if t.errAt {
+			t.fail(x, "fmt.Errorf in a function that also builds &T{ErrX, off} errors is not supported")
+		}
 		// fmt.Errorf("…%w…", …, ErrX, …): an error that wraps the package variable ErrX; the text is not modelled,
 		// the other arguments are only evaluated
 		if len(x.Args) < 2 || x.Ellipsis.IsValid() {
@@ -487,6 +512,12 @@ func (t *loopTr) libCall(x *ast.CallExpr, sel *ast.SelectorExpr) (string, lkind)
 // errVar returns the value of the package-level error variable v = errors.New(…), which nothing in the package
 // assigns or takes the address of.
 func (s *loopSet) errVar(t *loopTr, v *types.Var, at ast.Node) string {
+	return "(some " + leanString(s.errVarName(t, v, at)) + ")"
+}
+
+// errVarName checks that the package-level variable v is an errors.New value that nothing assigns or takes the
+// address of, and returns its name.
+func (s *loopSet) errVarName(t *loopTr, v *types.Var, at ast.Node) string {
 	init, _, ok := s.p.valueSpec(v.Name())
 	c, isCall := init.(*ast.CallExpr)
 	if !ok || !isCall {
@@ -521,7 +552,7 @@ func (s *loopSet) errVar(t *loopTr, v *types.Var, at ast.Node) string {
 			return true
 		})
 	}
-	return "(some " + leanString(v.Name()) + ")"
+	return v.Name()
 }
 
 // pkgVar returns the Lean name of package variable v, checking that it is a slice literal of
